@@ -2,7 +2,7 @@
 import importlib
 import lib
 
-FAMILIES = ["forkchoice"]
+FAMILIES = ["forkchoice", "helpers", "forks"]
 
 
 def main(args):
